@@ -47,7 +47,12 @@ def gen_programs(ctx, families, per_family, rng):
         rows = vlib.read_ndjson(os.path.join(r["dir"], "cases.ndjson"))
         total[f] = len(rows)
         if per_family and len(rows) > per_family:
-            rows = rng.sample(rows, per_family)
+            # programs with a reference cycle are where the link order can matter: take them first
+            cyc = [r for r in rows if r.get("cyc")]
+            rest = [r for r in rows if not r.get("cyc")]
+            take_c = rng.sample(cyc, min(len(cyc), (2 * per_family) // 3))
+            rows = take_c + rng.sample(rest, min(len(rest), per_family - len(take_c)))
+        total[f + "_with_ref_cycle"] = sum(1 for r in rows if r.get("cyc"))
         cases += rows
     ctx.cov["family_sizes"] = total
     return cases
